@@ -321,6 +321,14 @@ def handle (toks : List String) : String :=
       let idx := Pff.Entry.genIdx pre.length ps
       s!"{toHex (Pff.Entry.genEcc pre ps)} {" ".intercalate (idx.map (fun ko => s!"{ko.1}:{ko.2}"))}"
     | _, _ => "bad-op"
+  | "genidx" :: pre :: rest =>
+    -- rest = parts… ; ET  → the bytes of the generated index file
+    match parseHex pre, splitAll ";" rest with
+    | some pre, [parts, et] =>
+      match parts.mapM parseParts, parseETab et with
+      | some ps, some et => toHex (Pff.Entry.genIdxFile (opsWithEnc et [] []).enc (Pff.Entry.genIdx pre.length ps))
+      | _, _ => "bad-op"
+    | _, _ => "bad-op"
   | "recidx" :: nIdx :: kIdx :: idx :: file :: rest =>
     match nIdx.toNat?, kIdx.toNat?, parseHex idx, parseHex file, splitAll ";" rest with
     | some nIdx, some kIdx, some idx, some file, [ct, dt] =>
